@@ -639,10 +639,21 @@ pub fn judge_total(j: &mut Judge, peer_idx: usize, msg: &Msg, out: &Outcome, nth
     match out {
         Outcome::Panic { msg: pmsg, loc } => {
             let k = kind(a);
-            let sub = action_kind(a).map(|s| format!(":{s}")).unwrap_or_default();
+            // The auth action is part of the failure shape only where the action itself is what is
+            // not handled (`unimplemented!()` arms); the panics inside p2panda-auth do not depend on
+            // which non-create action carried the unknown group / dangling dependency.
+            let sub = if slug(pmsg) == "not-implemented" {
+                action_kind(a).map(|s| format!(":{s}")).unwrap_or_default()
+            } else {
+                String::new()
+            };
             j.res.violations.push((
                 format!("C39:panic:{k}{sub}:{}", slug(pmsg)),
-                format!("Manager::process panicked on a well-typed {k}{sub} message: \"{}\" at {loc}", trunc(pmsg, 160)),
+                format!(
+                    "Manager::process panicked on a well-typed {k}{} message: \"{}\" at {loc}",
+                    action_kind(a).map(|s| format!(":{s}")).unwrap_or_default(),
+                    trunc(pmsg, 160)
+                ),
                 json!({
                     "seed": j.seed, "case": j.case, "stage": j.stage, "peer": peer_idx, "delivery": nth,
                     "replay": replay_hint(j.seed, j.stage, j.case),
